@@ -31,8 +31,9 @@ def main():
            'property\'s quick check runs with VERIF_REPO pointing at the scratch tree and *without* the regression corpus, so a',
            'CAUGHT below is the seeded search (plus the two exhaustive sweeps of C01/C03) alone.  `M..` are hand-made',
            '(selftest/make_mutants.py); `S-`, `S2-` ... `S6-` were written by independent sub-agents (seeded/<id>/, rounds 1-6).',
-           'A MISSED row carries the triage note of its meta.json (all of them concern behaviour outside the claimed',
-           'properties or are caught by another property\'s check than the one the author aimed at).', '',
+           'A MISSED row carries the triage note of its meta.json: behaviour outside the claimed properties, a change caught',
+           'by another property\'s check than the one its author aimed at, or sampling variance of the corpus-less search',
+           '(such a change is reported at once through its history in regressions/corpus/, which every check replays first).', '',
            '| id | property | change | result | failing predicate, run index, minimised size / note |', '|---|---|---|---|---|']
     n = {'CAUGHT': 0, 'MISSED': 0, 'KILLED-BY-EXISTING-SUITE': 0}
     for k in sorted(final, key=lambda x: (not x.startswith('M'), x)):
